@@ -32,8 +32,14 @@ def ref_text(r):
     return bql.expr_text(r['e'])
 
 
+def has_sub(q):
+    return isinstance(q.get('sub'), dict) and q['sub'].get('k') != 'none'
+
+
 def query_ast(q, table):
-    targets = [(bql.expr_ast(t['e']), t['as'] or None) for t in q['targets']]
+    if has_sub(q):
+        table = query_ast(q['sub'], table)
+    targets = '*' if q.get('star') else [(bql.expr_ast(t['e']), t['as'] or None) for t in q['targets']]
     where = None if is_none(q['where']) else bql.expr_ast(q['where'])
     group = None
     if q['group']:
@@ -48,8 +54,8 @@ def query_text(q, table):
     parts = ['SELECT']
     if q['distinct']:
         parts.append('DISTINCT')
-    parts.append(', '.join(bql.expr_text(t['e']) + (' AS %s' % t['as'] if t['as'] else '') for t in q['targets']))
-    parts.append('FROM #%s' % table)
+    parts.append('*' if q.get('star') else ', '.join(bql.expr_text(t['e']) + (' AS %s' % t['as'] if t['as'] else '') for t in q['targets']))
+    parts.append('FROM (%s)' % query_text(q['sub'], table) if has_sub(q) else 'FROM #%s' % table)
     if not is_none(q['where']):
         parts.append('WHERE ' + bql.expr_text(q['where']))
     if q['group']:
@@ -68,6 +74,7 @@ def query_text(q, table):
 def q_key(q):
     """structural signature of a query (for distinct accounting)"""
     return '|'.join([
+        ('SUB[' + q_key(q['sub']) + ']' if has_sub(q) else '') + ('*' if q.get('star') else '') +
         ','.join(bql.expr_key(t['e']) for t in q['targets']),
         'W:' + ('' if is_none(q['where']) else bql.expr_key(q['where'])),
         'G:' + ','.join(str(r.get('i')) if r['k'] == 'idx' else bql.expr_key(r['e']) for r in q['group']),
